@@ -152,8 +152,8 @@ def mk_bufferized_up(r, nb, rev, tokens=None):
 def jobs(tier):
     quick = tier == "quick"
     J = []
-    A = lambda mk, **kw: J.append(Job("A", mk, max_states=kw.pop("max_states", 20000 if quick else 200000), **kw))
-    B = lambda mk, **kw: J.append(Job("B", mk, cycles=3000 if quick else 30000, runs=1 if quick else 4, **kw))
+    A = lambda mk, **kw: J.append(Job("A", mk, max_states=kw.pop("max_states", 20000 if quick else 30000), **kw))
+    B = lambda mk, **kw: J.append(Job("B", mk, cycles=3000 if quick else 20000, runs=1 if quick else 3, **kw))
     T2 = [(0, 0, 1), (1, 1, 0)]   # two token values that toggle every field (keeps stale-memory blow-up small)
 
     # ---- first slice: pipes, buffers, FIFOs
@@ -201,7 +201,7 @@ def jobs(tier):
                 if quick and msb != ((i + o) % 2 == 0) and L.io_lcm(i, o) > 6:
                     continue      # quick: both bit orders only for the small registers
                 A(lambda i=i, o=o, msb=msb: mk_gearbox(i, o, msb, tokens=gb_tokens(i) if quick and i >= 3 else None),
-                  max_states=5000 if quick else 20000)
+                  max_states=5000 if quick else 10000)
 
     # ---- routing
     for n in (1, 2, 3):
@@ -221,7 +221,7 @@ def jobs(tier):
     A(lambda: mk_cast([1, 1, 1], [3], True, False))
     A(lambda: mk_shifter(2, tokens=[(0, 0, 0), (1, 0, 1), (2, 1, 0), (3, 1, 1)]))
     if not quick:
-        A(lambda: mk_shifter(3))
+        A(lambda: mk_shifter(3, tokens=[(0, 0, 0), (5, 0, 1), (2, 1, 0), (7, 1, 1), (4, 0, 0)]))
     A(lambda: mk_bufferized_up(2, 1, False, tokens=T2))
 
     # ---- mode B: realistic sizes
